@@ -117,6 +117,9 @@ class Session(object):
             def handle_rcpt(self, reply, rcpt, params):
                 log.append({'t': 'cb', 'name': 'RCPT', 'verdict': self._v('rcpt', reply), 'addr': drv.aid(rcpt)})
 
+            def handle_auth(self, reply, creds):
+                log.append({'t': 'cb', 'name': 'AUTH', 'verdict': self._v('auth', reply), 'addr': 0})
+
             def handle_data(self, reply):
                 log.append({'t': 'cb', 'name': 'DATA', 'verdict': self._v('data', reply), 'addr': 0})
 
